@@ -14,7 +14,12 @@ def run(ctx):
                 "classes) and the introductions completing A-first / D-first; AsyncAND on every fired/pending mixture up to 4 inputs; three-party "
                 "histories on four real Tubs with message-granular delivery (4 fixed witnesses + random: exports from two owners with "
                 "colliding clids, gives of 1-3 proxies per call, the giver's application dropping at any point, every link direction "
-                "delivered separately incl. the giver's release traffic) compared after every action with the model lib/Gifts.v")
+                "delivered separately incl. the giver's release traffic) compared after every action with the model lib/Gifts.v; "
+                "ONE gift-bearing value in SEVERAL places of one call (fixed list: 7 kinds of value -- bare proxy, tuple, frozenset, "
+                "tuple in tuple / in frozenset, tuple of list, list -- x 15 shapes -- positional / keyword arguments, list / tuple / "
+                "dict / set members, argument + member -- x gifts from one / two owners; whole and cut, three fixed witnesses of the "
+                "cut between a back-reference's INT and CLOSE), structure, one-proxy-per-original and call target checked at "
+                "invocation; one placeholder Deferred subscribed by every sequence of 1-3 real unslicers, compared with Refs.fire")
     ctx.assumptions = [
         "CPython collects a proxy on the last `del` (+gc.collect()): DropProxy is an explicit action; modelled, not verified",
         "FIFO byte streams both ways, one queue item per top-level banana object; eventual-queue FIFO order relied upon",
@@ -32,8 +37,39 @@ def run(ctx):
     for sig, text in R.d15_witness():
         ctx.fail(sig, text, replay=dict(witness="bound method sent, proxy collected, sent again (notes/e6.py)"))
     ctx.case(["d15-bound-method"], nontrivial=True)
-    results = R.check_refs(ctx, "C08", "redelivery-while-held")
     from harness import c08_impl
+    from harness.implenv import quiet
+    # known finding: the holder's tracker re-created from a non-first my-reference has no FURL (model: C08_live_proxy_without_url_refuted,
+    # C08_all_introductions_faithful_refuted, C08_gift_of_recreated_proxy_refuted), replayed on three real Tubs
+    with quiet():
+        try:
+            wproblems, reached = c08_impl.urlless_witness()
+        except Exception:
+            import traceback
+            wproblems, reached = [("oracle/gift-exception", "the url-less witness raised: %s" % traceback.format_exc()[-800:])], False
+    ctx.case(["urlless-recreated-tracker"], nontrivial=bool(reached))
+    ctx.hist("urlless_witness", "state-reached" if reached else "state-not-reached")
+    for sig, text in wproblems:
+        ctx.fail(sig, text, replay=dict(witness="Send x; RecvOH; DropProxy 0; HandleRefLost; Send x; RecvHO; RecvOH; DropProxy 1; HandleRefLost; "
+                                                "RecvOH; Send x; RecvOH; then the holder gives its proxy to a third Tub"))
+    if not reached and not wproblems:
+        ctx.note("the url-less witness no longer reaches a tracker without FURL on the implementation (the model says it does: "
+                 "C08_live_proxy_without_url_refuted)")
+    # the model's do_register takes a name over like Tub._assignName (C08_introduction_refuted_by_name_takeover): same on real Tubs?
+    with quiet():
+        try:
+            who = c08_impl.name_takeover_witness()
+        except Exception:
+            import traceback
+            who = "raised: " + traceback.format_exc()[-600:]
+    ctx.case(["name-takeover"], nontrivial=True)
+    ctx.traces += 1
+    if who != "new":
+        ctx.fail("correspondence/name-takeover", "the model (Gifts.do_register, name_takeover_ops) says that after a second object is "
+                 "registered under a name in use, a gift of the first object's proxy yields a proxy of the SECOND object; on real Tubs: %s" % who,
+                 replay=dict(witness="registerReference(old, 'service'); B obtains it; registerReference(new, 'service'); B gives its proxy to C",
+                             got=who), has_input=False)
+    results = R.check_refs(ctx, "C08", "redelivery-while-held")
     c08_impl.gifts(ctx)
     c08_impl.multi_gifts(ctx)
     c08_impl.reconnect(ctx, "C08")
@@ -46,6 +82,7 @@ def run(ctx):
     from harness import gifts_impl
     gifts_impl.check_gifts(ctx, "C08", model_ok)
     c08_impl.asyncand_check(ctx, model_ok)
+    c08_impl.placeholder_check(ctx, model_ok)
     # a failing input that is a listed known finding does not explain a broken proof
     known = common.load_known()
     fresh = [f for f in ctx.failures[before:] if not (f["has_input"] and known.get(("C08", f["sig"]), {}).get("status") == "known")]
